@@ -24,6 +24,9 @@ func VerifC11_close_all_paths() {
 	if ps.h1sent && ps.h1closed {
 		vReach("h1-served")
 	}
+	if ps.h1refused {
+		vReach("h1-hand-over-refused") // D15: serveConn must not wait for a server that no longer accepts
+	}
 }
 
 // The HTTP/1.1 wrapper conn: closing it fires Done (which lets serveConn finish) and closes the TLS conn.
